@@ -631,12 +631,32 @@ func checkCreateEventV1(event PDU, sender spec.UserID, knownRoomVersion KnownRoo
 	if c.Creator == nil {
 		return errorf("create event has no creator field")
 	}
+	if err := checkCreateContentNotNull(event.Content(), "room_version"); err != nil {
+		return err
+	}
 	if c.RoomVersion != nil {
 		if !knownRoomVersion(*c.RoomVersion) {
 			return errorf("create event has unrecognised room version %q", *c.RoomVersion)
 		}
 	}
 
+	return nil
+}
+
+// checkCreateContentNotNull refuses a create content in which one of the given
+// members is present but null: encoding/json reads that as "absent", the rules
+// ask for a recognised room version, or an array of user IDs, whenever the
+// member is present.
+func checkCreateContentNotNull(content []byte, keys ...string) error {
+	var members map[string]json.RawMessage
+	if err := json.Unmarshal(content, &members); err != nil {
+		return nil // not an object: reported elsewhere
+	}
+	for _, key := range keys {
+		if v, ok := members[key]; ok && string(bytes.TrimSpace(v)) == "null" {
+			return errorf("create event has a %s that is null", key)
+		}
+	}
 	return nil
 }
 
@@ -654,6 +674,9 @@ func checkCreateEventV3(event PDU, sender spec.UserID, knownRoomVersion KnownRoo
 	}{}
 	if err := unmarshalExact(event.Content(), &c); err != nil {
 		return errorf("create event has invalid content: %s", err.Error())
+	}
+	if err := checkCreateContentNotNull(event.Content(), "room_version", "additional_creators"); err != nil {
+		return err
 	}
 	if c.RoomVersion != nil {
 		if !knownRoomVersion(*c.RoomVersion) {
